@@ -433,6 +433,9 @@ class XsdAttributeGroup(
                     assert isinstance(attr, XsdAnyAttribute)
                     attr.intersection(any_attribute)
                     attr.parent = self
+
+                    # The complete wildcard has the processContents of the local wildcard
+                    attr.process_contents = any_attribute.process_contents
                 else:
                     attributes[None] = any_attribute
 
